@@ -32,10 +32,42 @@ func checkC14(c *Ctx) {
 	c14NoHandlerUnderLock(c)
 
 	pe := p.Method("core/eventloop", "EventLoop", "processEvent")
+	// the dispatch may have two entry points instead of a mode flag: processEvent(event) for queued events, which
+	// releases the delayed events afterwards, and a private function of the loop that runs the handlers of one mode,
+	// called by processEvent with `false` and by AddEvent with `true`
+	var disp *ssa.Function
+	dispMode, dispEvent := -1, -1
 	if pe == nil {
 		c.Unresolved("C14.2", "processEvent", "anchor missing")
 	} else {
-		c14ProcessEvent(c, pe)
+		if len(pe.Params) == 2 {
+			kpe := NewKeyer(p, pe)
+			for _, s := range callsIn(pe, false, func(cc *ssa.CallCommon) bool {
+				cal := cc.StaticCallee()
+				return cal != nil && cal.Blocks != nil && funcPkgPath(cal) == funcPkgPath(pe) && cal.Object() != nil && !cal.Object().Exported()
+			}) {
+				if _, isCall := s.(*ssa.Call); !isCall {
+					continue
+				}
+				m, e := -1, -1
+				for i, a := range s.Common().Args {
+					if isBoolConst(a, false) {
+						m = i
+					}
+					if kpe.Key(a) == "p1" {
+						e = i
+					}
+				}
+				if m >= 0 && e >= 0 {
+					disp, dispMode, dispEvent = s.Common().StaticCallee(), m, e
+				}
+			}
+		}
+		if disp != nil {
+			c14ProcessEventSplit(c, pe, disp, dispMode, dispEvent)
+		} else {
+			c14ProcessEvent(c, pe, "p2", true)
+		}
 	}
 	c14Delayed(c)
 	c14Popped(c)
@@ -52,9 +84,22 @@ func checkC14(c *Ctx) {
 			s := ds.Site
 			n++
 			facts := ds.Facts
-			ok := afterOf(facts, func(k string) bool {
+			ranHandlers := afterOf(facts, func(k string) bool {
 				return strings.HasPrefix(k, "(*hs/core/eventloop.EventLoop).processEvent(p0, p1, c:true)")
-			}) &&
+			})
+			if !ranHandlers && disp != nil {
+				// the in-AddEvent entry point: the handler-running function called with the event and mode `true`
+				for _, hs := range callsIn(ae, false, func(cc *ssa.CallCommon) bool { return calleeIs(cc, disp) }) {
+					a := hs.Common().Args
+					if hc, isCall := hs.(*ssa.Call); isCall && dispMode < len(a) && dispEvent < len(a) && isBoolConst(a[dispMode], true) && fl.K.Key(a[dispEvent]) == "p1" {
+						hk := fl.K.Key(hc)
+						if afterOf(facts, is(hk)) {
+							ranHandlers = true
+						}
+					}
+				}
+			}
+			ok := ranHandlers &&
 				ds.Args[1] == "p1" && notNilOf(facts, is("p1"))
 			c.Check(ok, "C14.6", "AddEvent: in-AddEvent handlers run before the event is queued", p.Pos(s.Pos()),
 				"push(event) is preceded on every path by processEvent(event, true); nil events are not queued", "push not preceded by processEvent(event, true); facts: "+join(facts.Sorted()))
@@ -123,7 +168,40 @@ func c14NoHandlerUnderLock(c *Ctx) {
 		itoa(n)+" handler calls / channel operations examined; none under EventLoop.mut or queue.mut", join(bad))
 }
 
-func c14ProcessEvent(c *Ctx, pe *ssa.Function) {
+// c14ProcessEventSplit: processEvent(event) = defer dispatchDelayedEvents(TypeOf(event)); disp(.., event, false).
+// The handler rules are judged in disp with its mode parameter; the release of delayed events in processEvent.
+func c14ProcessEventSplit(c *Ctx, pe, disp *ssa.Function, mode, event int) {
+	p := c.P
+	c14ProcessEvent(c, disp, "p"+itoa(mode), false)
+	dd := p.Method("core/eventloop", "EventLoop", "dispatchDelayedEvents")
+	fl := NewFlow(p, pe)
+	var def *ssa.Defer
+	eachInstr(pe, func(in ssa.Instruction) {
+		if d, ok := in.(*ssa.Defer); ok && calleeIs(&d.Call, dd) {
+			def = d
+		}
+	})
+	okDefer := def != nil && strings.HasPrefix(fl.K.Key(def.Call.Args[1]), "reflect.TypeOf(p1)")
+	// the deferred release is registered before the handlers run, on every path, and the handler-running function itself
+	// releases nothing (it also serves AddEvent, where delayed events must stay)
+	okOrder := okDefer
+	for _, s := range callsIn(pe, false, func(cc *ssa.CallCommon) bool { return calleeIs(cc, disp) }) {
+		if !okDefer || !precedes(def, s) || !isBoolConst(s.Common().Args[mode], false) {
+			okOrder = false
+		}
+	}
+	inner := false
+	for _, hf := range helperClosure(p, disp, 2) {
+		if len(callsIn(hf, true, func(cc *ssa.CallCommon) bool { return calleeIs(cc, dd) })) > 0 {
+			inner = true
+		}
+	}
+	c.Check(okDefer && okOrder && !inner, "C14.2/delayed", "processEvent: delayed events released after the handlers, not in AddEvent mode", p.FuncPos(pe),
+		"processEvent defers dispatchDelayedEvents(TypeOf(event)) before running the handlers in queue mode; the handler-running function shared with AddEvent releases nothing",
+		"deferred release: "+boolStr(okDefer)+", before the handlers in queue mode: "+boolStr(okOrder)+", release inside the shared function: "+boolStr(inner))
+}
+
+func c14ProcessEvent(c *Ctx, pe *ssa.Function, modeParam string, withDelayed bool) {
 	p := c.P
 	fl := NewFlow(p, pe)
 	lf := lockFlow(pe, lockState{})
@@ -215,12 +293,12 @@ func c14ProcessEvent(c *Ctx, pe *ssa.Function) {
 			}
 			fl, lf := flows[owner], lfs[owner]
 			// the mode parameter in the owner's terms: the parameter that receives processEvent's runningInAddEvent
-			modeKey := "p2"
+			modeKey := modeParam
 			if owner != pe {
 				modeKey = ""
 				for _, s := range callsIn(pe, false, func(cc *ssa.CallCommon) bool { return calleeIs(cc, owner) }) {
 					for i, a := range s.Common().Args {
-						if flows[pe].K.Key(a) == "p2" {
+						if flows[pe].K.Key(a) == modeParam {
 							modeKey = "p" + itoa(i)
 						}
 					}
@@ -260,6 +338,9 @@ func c14ProcessEvent(c *Ctx, pe *ssa.Function) {
 		// every prioritised handler before any ordinary one: the ordinary loop starts only after the prioritised loop's exit
 		c.Check(dom && back == nil, "C14.2/order", "processEvent: prioritised handlers run first", p.InstrPos(first.call),
 			"the ordinary loop is reachable from the prioritised loop and no prioritised handler call is reachable from an ordinary one", "ordinary handlers may run before or between prioritised ones")
+	}
+	if !withDelayed {
+		return
 	}
 	// delayed events are dispatched after the handlers (deferred) and only outside AddEvent
 	dd := p.Method("core/eventloop", "EventLoop", "dispatchDelayedEvents")
